@@ -170,9 +170,11 @@ class Bot:
             # conditions when reducing the tower size (see the definition of
             # `self.next_row_generator` in `__init__` for more details)
             with self.next_row_generator_lock:
-                self.next_row_generator = json_to_row_generator(row_gen_json, self.logger)
+                row_generator = json_to_row_generator(row_gen_json, self.logger)
+                self.next_row_generator = row_generator
 
-            self.logger.info(f"Next touch, Wheatley will ring {self.next_row_generator.summary_string()}")
+            # (don't read `self.next_row_generator` here: a size change may already have removed it)
+            self.logger.info(f"Next touch, Wheatley will ring {row_generator.summary_string()}")
         except RowGenParseError as e:
             self.logger.warning(e)
 
